@@ -66,7 +66,7 @@ REQUIRED_CLAUSES = ["roundtrip<=1e-8", "fields.canonical", "fields.types",
                     "forms.agree<=1e-9", "arith.(e+x)-e==x",
                     "arith.e-(e-x)==x", "arith.radd==add", "arith.iadd==add",
                     "arith.isub==sub", "arith.e-f==jde-diff",
-                    "order.matches-jde", "hash.equal"]
+                    "order.matches-jde", "hash.equal", "set==constructor"]
 REQUIRED_CONTRACTS = ["invariant:Epoch(jde finite real)"]
 
 
@@ -444,10 +444,11 @@ def case_objhistory(mon, seedval):
                          "read-full-utc", "read-full-leap", "set-jde",
                          "set-jde-utc", "set-jde-leap", "set-ymd",
                          "set-ymd-utc", "set-epoch", "set-epoch-utc",
-                         "set-tuple", "iadd", "isub"))
+                         "set-tuple", "iadd", "isub", "set-empty",
+                         "set-options-only"))
         # the time-scale options are quantified over 1950..2100 (C10); far
         # outside, get_date(utc=True) meets datetime's year range
-        if op.endswith(("utc", "leap")):
+        if op.endswith(("utc", "leap")) or op == "set-options-only":
             j = rng.uniform(2441317.5, 2462502.5)
             y = rng.randrange(1972, 2030)
             d = min(d, 28)
@@ -465,22 +466,42 @@ def case_objhistory(mon, seedval):
                 e.get_full_date(utc=True)
             elif op == "read-full-leap":
                 e.get_full_date(leap_seconds=rng.choice((27.0, 37, 1)))
-            elif op == "set-jde":
-                e.set(j)
-            elif op == "set-jde-utc":
-                e.set(j, utc=True)
-            elif op == "set-jde-leap":
-                e.set(j, leap_seconds=rng.choice((0.0, 35.0, 12)))
-            elif op == "set-ymd":
-                e.set(y, mo, d, h, mi, us / 1e6)
-            elif op == "set-ymd-utc":
-                e.set(y, mo, d, h, mi, us / 1e6, utc=True)
-            elif op == "set-epoch":
-                e.set(Epoch(j))
-            elif op == "set-epoch-utc":
-                e.set(Epoch(j), utc=True)
-            elif op == "set-tuple":
-                e.set((y, mo, d + h / 24.0))
+            elif op.startswith("set-"):
+                kw = {}
+                if op == "set-jde":
+                    a = (j,)
+                elif op == "set-jde-utc":
+                    a, kw = (j,), {"utc": True}
+                elif op == "set-jde-leap":
+                    a, kw = (j,), {"leap_seconds":
+                                   rng.choice((0.0, 35.0, 12))}
+                elif op == "set-ymd":
+                    a = (y, mo, d, h, mi, us / 1e6)
+                elif op == "set-ymd-utc":
+                    a, kw = (y, mo, d, h, mi, us / 1e6), {"utc": True}
+                elif op == "set-epoch":
+                    a = (Epoch(j),)
+                elif op == "set-epoch-utc":
+                    a, kw = (Epoch(j),), {"utc": True}
+                elif op == "set-tuple":
+                    a = ((y, mo, d + h / 24.0),)
+                elif op == "set-empty":
+                    a = ()
+                else:                           # set-options-only
+                    a, kw = (), rng.choice(({"utc": True},
+                                            {"leap_seconds": 0.0},
+                                            {"utc": False}))
+                e.set(*a, **kw)
+                # set() versus constructor: the same arguments, the same
+                # instant, whatever the object held before
+                want = Epoch(*a, **kw).jde()
+                mon.check("set==constructor", abs(e.jde() - want) <= 1e-9,
+                          lambda: {"seed": seedval, "steps": steps + [op],
+                                   "args": repr(a), "options": repr(kw),
+                                   "object_after_set": e.jde(),
+                                   "constructor": want})
+                if not a:
+                    mon.cls("set-without-a-date", ("ehist", seedval, op))
             elif op == "iadd":
                 e += rng.choice((1, 0.5, rng.uniform(-500, 500)))
             else:
